@@ -11,6 +11,7 @@ import (
 	"github.com/EliCDavis/vector/vector3"
 	"github.com/EliCDavis/vector/vector4"
 	"polyverif/internal/c15/splatref"
+	"polyverif/internal/gen"
 	"polyverif/internal/run"
 )
 
@@ -64,7 +65,7 @@ type cloudDesc struct {
 
 func genSplats(r *rand.Rand, n, caseIdx int) ([]splatref.Splat, cloudDesc) {
 	d := cloudDesc{
-		posClass:   []string{"f32", "f64", "large", "tiny", "mixed"}[r.Intn(5)],
+		posClass:   []string{"f32", "f64", "large", "tiny", "mixed", "residue"}[r.Intn(6)],
 		scaleClass: []string{"typical", "typical", "wide", "mixed"}[r.Intn(4)],
 	}
 	coord := func() float64 {
@@ -79,6 +80,8 @@ func genSplats(r *rand.Rand, n, caseIdx int) ([]splatref.Splat, cloudDesc) {
 			return (r.Float64() - 0.5) * 4e5
 		case "tiny":
 			return (r.Float64() - 0.5) * 2e-3
+		case "residue": // magnitudes far below any epsilon (round 8), see gen.Value
+			return gen.Value(r, "residue")
 		}
 		return r.Float64()*20 - 10
 	}
